@@ -34,6 +34,7 @@ func init() {
 		r.yield(fr, "lock")
 		r.block(fr, "Mutex.Lock", func() bool { return !m.locked && m.readers == 0 })
 		m.locked = true
+		r.acquire(fr, m)
 		return nil
 	}, "(*sync.Mutex).Lock", "(*sync.RWMutex).Lock")
 	reg(func(r *Run, fr *frame, args []Value) Value {
@@ -42,6 +43,7 @@ func init() {
 			panic(targetPanic{v: Iface{T: types.Typ[types.String], V: "sync: unlock of unlocked mutex"}, msg: "fatal error: sync: unlock of unlocked mutex", kind: "mutex", site: fr.repoSite(), fn: fr.fn.String()})
 		}
 		m.locked = false
+		r.release(fr, m)
 		r.yield(fr, "unlock")
 		return nil
 	}, "(*sync.Mutex).Unlock", "(*sync.RWMutex).Unlock")
@@ -58,11 +60,13 @@ func init() {
 		r.yield(fr, "rlock")
 		r.block(fr, "RWMutex.RLock", func() bool { return !m.locked })
 		m.readers++
+		r.acquire(fr, m)
 		return nil
 	}, "(*sync.RWMutex).RLock")
 	reg(func(r *Run, fr *frame, args []Value) Value {
 		m := r.mutex(args[0].(*Value))
 		m.readers--
+		r.release(fr, m)
 		return nil
 	}, "(*sync.RWMutex).RUnlock")
 
@@ -88,6 +92,7 @@ func init() {
 		if r.wgs[p] < 0 {
 			panic(targetPanic{v: Iface{T: types.Typ[types.String], V: "sync: negative WaitGroup counter"}, msg: "sync: negative WaitGroup counter", kind: "waitgroup", site: fr.repoSite(), fn: fr.fn.String()})
 		}
+		r.release(fr, p)
 		r.yield(fr, "wg.Done")
 		return nil
 	}, "(*sync.WaitGroup).Done")
@@ -95,6 +100,7 @@ func init() {
 		p := args[0].(*Value)
 		r.yield(fr, "wg.Wait")
 		r.block(fr, "WaitGroup.Wait", func() bool { return r.wgs[p] == 0 })
+		r.acquire(fr, p)
 		return nil
 	}, "(*sync.WaitGroup).Wait")
 	reg(func(r *Run, fr *frame, args []Value) Value {
@@ -103,10 +109,12 @@ func init() {
 			r.onces = map[*Value]bool{}
 		}
 		if r.onces[p] {
+			r.acquire(fr, p)
 			return nil
 		}
 		r.onces[p] = true
 		r.call(fr, 0, args[1], nil)
+		r.release(fr, p)
 		return nil
 	}, "(*sync.Once).Do")
 
@@ -572,3 +580,25 @@ func init() {
 }
 
 var _ = fmt.Sprintf
+
+// release / acquire on a synchronisation object (race monitor): release joins the
+// goroutine's clock into the object's, acquire joins the object's clock into the goroutine's.
+func (r *Run) release(fr *frame, key interface{}) {
+	if !r.eng.cfg.Race || fr == nil || fr.g == nil {
+		return
+	}
+	if r.syncVC == nil {
+		r.syncVC = map[interface{}]vclock{}
+	}
+	r.syncVC[key] = joinVC(r.syncVC[key], fr.g.snapshot())
+	fr.g.tick()
+}
+
+func (r *Run) acquire(fr *frame, key interface{}) {
+	if !r.eng.cfg.Race || fr == nil || fr.g == nil {
+		return
+	}
+	if vc, ok := r.syncVC[key]; ok {
+		fr.g.join(vc)
+	}
+}
